@@ -325,6 +325,36 @@ func seqTargets(d *seqDom) []*seqTarget {
 				},
 				GoSetup: append(goMem(d, "base", ""), "vfs := failfs.New(base)", "_ = vfs.SetFailFunc(failfs.ReadOnlyFunc)"),
 			},
+			// every consultation fails with an error of one of the kinds that
+			// composite helpers inspect (MkdirTemp and CreateTemp retry on "exists",
+			// MkdirAll and MkdirTemp look at "not exist"): a retry loop whose
+			// counter never advances does not return
+			&seqTarget{
+				Name: "FailFS(MemFS,always-exist)", Kind: "vfs", FileType: "FailFile",
+				build: func(t *seqTarget) *seqInst {
+					return memInst(t, func(m *memfs.MemFS) avfs.VFS {
+						f := failfs.New(m)
+						_ = f.SetFailFunc(func(avfs.VFSBase, avfs.FnVFS, *failfs.FailParam) error { return fs.ErrExist })
+
+						return f
+					}, "", "")
+				},
+				GoSetup: append(goMem(d, "base", ""), "vfs := failfs.New(base)",
+					"_ = vfs.SetFailFunc(func(avfs.VFSBase, avfs.FnVFS, *failfs.FailParam) error { return fs.ErrExist })"),
+			},
+			&seqTarget{
+				Name: "FailFS(MemFS,always-notexist)", Kind: "vfs", FileType: "FailFile",
+				build: func(t *seqTarget) *seqInst {
+					return memInst(t, func(m *memfs.MemFS) avfs.VFS {
+						f := failfs.New(m)
+						_ = f.SetFailFunc(func(avfs.VFSBase, avfs.FnVFS, *failfs.FailParam) error { return fs.ErrNotExist })
+
+						return f
+					}, "", "")
+				},
+				GoSetup: append(goMem(d, "base", ""), "vfs := failfs.New(base)",
+					"_ = vfs.SetFailFunc(func(avfs.VFSBase, avfs.FnVFS, *failfs.FailParam) error { return fs.ErrNotExist })"),
+			},
 			&seqTarget{
 				Name: "MemFS.Sub(/d)", Kind: "vfs", FileType: "MemFile",
 				build: func(t *seqTarget) *seqInst {
@@ -389,9 +419,13 @@ func (t *seqTarget) newInst() *seqInst {
 		k, _ := fsx.Guard(func() {
 			if fi, err := in.v.Stat(t.d.px("/a/f")); err == nil {
 				in.infoF = fi
+			} else if fi, err := in.base.Stat(t.d.px("/a/f")); err == nil && strings.Contains(t.Name, "always-") {
+				in.infoF = fi // a wrapper that refuses every call hands out its base's values
 			}
 
 			if fi, err := in.v.Stat(t.d.px("/a")); err == nil {
+				in.infoD = fi
+			} else if fi, err := in.base.Stat(t.d.px("/a")); err == nil && strings.Contains(t.Name, "always-") {
 				in.infoD = fi
 			}
 		})
